@@ -1,4 +1,6 @@
 import CircBuf.Lemmas.TieTac
+import CircBuf.Lemmas.Tie.PushPop
+import CircBuf.Lemmas.Swap
 set_option linter.unusedSimpArgs false
 set_option linter.unusedVariables false
 set_option maxHeartbeats 1000000
@@ -9,55 +11,34 @@ namespace CircBuf
 theorem tie_swap (i j : Nat) (s : Sys) (h : Inv s.buf) :
     Gen.swap i j s = swap i j s := by
   tie2 h [Gen.swap, swap]
-/-- on all states (used where no invariant is assumed: the documented panics) -/
-theorem tie_swap_all : Gen.swap = swap := by
-  funext i j s; tie [Gen.swap, swap]
-/-- `swap` changes neither `size` nor `cap`, whatever it returns -/
-theorem swap_keeps_size_cap (i j : Nat) (s : Sys) :
-    (swap i j s).2.buf.size = s.buf.size ∧ (swap i j s).2.buf.cap = s.buf.cap := by
-  tieS [swap]
-/-- `pop_back` / `pop_front` as translated, on every state with `size ≤ cap` (what survives a `swap`) -/
-theorem tie_pop_back_le (s : Sys) (h : s.buf.size ≤ s.buf.cap) : Gen.pop_back s = popBack s := by
-  first
-  | tie [Gen.pop_back, popBack, Gen.back_maybe_uninit, backSlot, Gen.dec_size, decSize]
-theorem tie_pop_front_le (s : Sys) (h : s.buf.size ≤ s.buf.cap) : Gen.pop_front s = popFront s := by
-  tie [Gen.pop_front, popFront, Gen.front_maybe_uninit, frontSlot, Gen.dec_size, decSize, Gen.inc_start, incStart]
+/-- the documented panics of `swap`, evaluated directly on the translated body (no invariant needed) -/
+theorem gen_swap_panics_i (s : Sys) (i j : Nat) (hi : ¬ i < s.buf.size) :
+    Gen.swap i j s = (.error (.doc "swap_i"), s) := by
+  tie [Gen.swap]
+theorem gen_swap_panics_j (s : Sys) (i j : Nat) (hi : i < s.buf.size) (hj : ¬ j < s.buf.size) :
+    Gen.swap i j s = (.error (.doc "swap_j"), s) := by
+  tie [Gen.swap]
+
 theorem tie_swap_remove_back (i : Nat) (s : Sys) (h : Inv s.buf) :
     Gen.swap_remove_back i s = swapRemoveBack i s := by
   simp only [Gen.swap_remove_back, swapRemoveBack, getBuf_bind, bind_assoc_run, ite_run, pure_run, liftE_bind]
   split
   · rfl
-  · cases usub s.buf.size 1 with
-    | error p => rfl
-    | ok t =>
-      simp only [bind_run, tie_swap i t s h]
-      cases hsw : swap i t s with
-      | mk r s1 => cases r with
-        | error p => rfl
-        | ok u =>
-          have hsz : s1.buf.size ≤ s1.buf.cap := by
-            have := swap_keeps_size_cap i t s
-            rw [hsw] at this
-            simp only [] at this
-            have := h.size_le
-            omega
-          simp only [tie_pop_back_le s1 hsz, pure_run]
+  · rename_i hlt
+    have hi : i < s.buf.size := by omega
+    have hu : usub s.buf.size 1 = .ok (s.buf.size - 1) := by simp [usub]; omega
+    simp only [hu, bind_run, tie_swap i (s.buf.size - 1) s h]
+    obtain ⟨b', e, hI', _⟩ := swap_spec s i (s.buf.size - 1) h hi (by omega)
+    simp only [e, tie_pop_back { s with buf := b' } hI', pure_run]
 theorem tie_swap_remove_front (i : Nat) (s : Sys) (h : Inv s.buf) :
     Gen.swap_remove_front i s = swapRemoveFront i s := by
   simp only [Gen.swap_remove_front, swapRemoveFront, getBuf_bind, bind_assoc_run, ite_run, pure_run]
   split
   · rfl
-  · simp only [bind_run, tie_swap i 0 s h]
-    cases hsw : swap i 0 s with
-    | mk r s1 => cases r with
-      | error p => rfl
-      | ok u =>
-        have hsz : s1.buf.size ≤ s1.buf.cap := by
-          have := swap_keeps_size_cap i 0 s
-          rw [hsw] at this
-          simp only [] at this
-          have := h.size_le
-          omega
-        simp only [tie_pop_front_le s1 hsz, pure_run]
+  · rename_i hlt
+    have hi : i < s.buf.size := by omega
+    simp only [bind_run, tie_swap i 0 s h]
+    obtain ⟨b', e, hI', _⟩ := swap_spec s i 0 h hi (by omega)
+    simp only [e, tie_pop_front { s with buf := b' } hI', pure_run]
 
 end CircBuf
